@@ -2,7 +2,9 @@
 //!   rt gen <seed> <n> [profile]     profiles: mix | comb | task | core | cancel
 //!   rt run
 //! case : `(direct CMD (ACTION*))` | `(core ((TAG CMD)*) (ACTION*))`
+use crux_core::bridge::{Bridge, BridgeError, BridgeWithSerializer};
 use crux_core::{Command, Core, Request};
+use harness::hex::{from_hex, to_hex};
 use harness::dsl::*;
 use harness::rng::Rng;
 use harness::sexp::{self, atom, list, Sexp};
@@ -27,10 +29,30 @@ impl HEffect for Effect {
 }
 
 thread_local! {
-    static PROGRAM: RefCell<Vec<(u32, Cmd)>> = const { RefCell::new(vec![]) };
+    static PROGRAM: RefCell<Prog> = const { RefCell::new(vec![]) };
     static ABORTS: RefCell<Aborts> = const { RefCell::new(vec![]) };
     static IN_UPDATE: RefCell<bool> = const { RefCell::new(false) };
     static REENTRANT: RefCell<bool> = const { RefCell::new(false) };
+}
+
+/// event tag ↦ (command returned by update, legacy capability tasks spawned by update)
+type Prog = Vec<(u32, Cmd, Vec<Vec<Instr>>)>;
+
+fn parse_prog(s: &Sexp) -> Option<Prog> {
+    s.as_list()?
+        .iter()
+        .map(|e| {
+            let xs = e.as_list()?;
+            let legacy = xs[2.min(xs.len())..]
+                .iter()
+                .map(|l| match l.form()? {
+                    ("legacy", is) => parse_instrs(is),
+                    _ => None,
+                })
+                .collect::<Option<Vec<_>>>()?;
+            Some((xs.first()?.num()?, parse_cmd(xs.get(1)?)?, legacy))
+        })
+        .collect()
 }
 
 #[derive(Default)]
@@ -43,7 +65,7 @@ impl crux_core::App for DslApp {
     type Capabilities = Caps;
     type Effect = Effect;
 
-    fn update(&self, ev: Event, model: &mut Vec<Event>, _caps: &Caps) -> Command<Effect, Event> {
+    fn update(&self, ev: Event, model: &mut Vec<Event>, caps: &Caps) -> Command<Effect, Event> {
         IN_UPDATE.with(|f| {
             if *f.borrow() {
                 REENTRANT.with(|r| *r.borrow_mut() = true);
@@ -53,8 +75,18 @@ impl crux_core::App for DslApp {
         model.push(ev.clone());
         let cmd = PROGRAM.with(|p| {
             let p = p.borrow();
-            match p.iter().find(|(t, _)| *t == ev.tag) {
-                Some((_, c)) => ABORTS.with(|a| build(c, &Env::with_event(ev.v), &mut a.borrow_mut())),
+            match p.iter().find(|(t, _, _)| *t == ev.tag) {
+                Some((_, c, legacy)) => {
+                    for l in legacy {
+                        let ctx = caps.cap.context.clone();
+                        let env = Env::with_event(ev.v);
+                        let l = std::sync::Arc::new(l.clone());
+                        caps.cap.context.spawn(async move {
+                            run_block_legacy(ctx, env, l).await;
+                        });
+                    }
+                    ABORTS.with(|a| build(c, &Env::with_event(ev.v), &mut a.borrow_mut()))
+                }
                 None => Command::done(),
             }
         });
@@ -74,6 +106,10 @@ enum Action {
     Abort(u32),
     Poll,
     Ev(u32, i64),
+    /// raw response bytes for effect K (+ what an independent decoder makes of them, for the JSON bridge)
+    RawRes(usize, Vec<u8>),
+    /// raw event bytes
+    RawEv(Vec<u8>),
 }
 
 fn parse_action(s: &Sexp) -> Option<Action> {
@@ -83,6 +119,8 @@ fn parse_action(s: &Sexp) -> Option<Action> {
         ("abort", [n]) => Action::Abort(n.num()?),
         ("poll", []) => Action::Poll,
         ("ev", [t, v]) => Action::Ev(t.num()?, v.num()?),
+        ("rawres", [k, h, _dec]) => Action::RawRes(k.num()?, from_hex(h.as_atom()?)?),
+        ("rawev", [h, _dec]) => Action::RawEv(from_hex(h.as_atom()?)?),
         _ => return None,
     })
 }
@@ -150,7 +188,7 @@ fn run_direct(cmd: &Cmd, acts: &[Action]) -> String {
                 "-".into()
             }
             Action::Poll => "-".into(),
-            Action::Ev(..) => return "bad-case".into(),
+            _ => return "bad-case".into(),
         };
         steps.push(observe(&res, &mut c, &mut reqs));
     }
@@ -161,7 +199,7 @@ fn run_direct(cmd: &Cmd, acts: &[Action]) -> String {
 
 const PROBE_TAG: u32 = 999;
 
-fn run_core(prog: Vec<(u32, Cmd)>, acts: &[Action]) -> String {
+fn run_core(prog: Prog, acts: &[Action]) -> String {
     PROGRAM.with(|p| *p.borrow_mut() = prog);
     ABORTS.with(|a| a.borrow_mut().clear());
     REENTRANT.with(|r| *r.borrow_mut() = false);
@@ -206,11 +244,201 @@ fn run_core(prog: Vec<(u32, Cmd)>, acts: &[Action]) -> String {
                 });
                 "~".into()
             }
-            Action::Poll => return "bad-case".into(),
+            _ => return "bad-case".into(),
         };
         steps.push(s);
     }
     let log = show_evs(&core.view());
+    let re = if REENTRANT.with(|r| *r.borrow()) { " REENTRANT" } else { "" };
+    format!("{} || LOG {}{}", steps.join(" | "), log, re)
+}
+
+// ---------------------------------------------------------------- Bridge hosts (bincode / JSON)
+
+type FfiReq = crux_core::bridge::Request<EffectFfi>;
+
+trait Wire {
+    fn event(&self, bytes: &[u8]) -> Result<Vec<u8>, BridgeError>;
+    fn response(&self, id: u32, bytes: &[u8]) -> Result<Vec<u8>, BridgeError>;
+    fn view(&self) -> Vec<u8>;
+    fn registry(&self) -> Vec<(u32, &'static str)>;
+    fn stats(&self) -> (usize, usize, usize, usize, usize);
+    fn enc_event(&self, e: &Event) -> Vec<u8>;
+    fn enc_val(&self, v: i64) -> Vec<u8>;
+    fn dec_reqs(&self, b: &[u8]) -> Vec<FfiReq>;
+    fn dec_view(&self, b: &[u8]) -> Vec<Event>;
+}
+
+struct Bin(Bridge<DslApp>);
+impl Wire for Bin {
+    fn event(&self, bytes: &[u8]) -> Result<Vec<u8>, BridgeError> {
+        self.0.process_event(bytes)
+    }
+    fn response(&self, id: u32, bytes: &[u8]) -> Result<Vec<u8>, BridgeError> {
+        self.0.handle_response(id, bytes)
+    }
+    fn view(&self) -> Vec<u8> {
+        self.0.view().unwrap()
+    }
+    fn registry(&self) -> Vec<(u32, &'static str)> {
+        self.0.verif_registry()
+    }
+    fn stats(&self) -> (usize, usize, usize, usize, usize) {
+        self.0.verif_stats()
+    }
+    fn enc_event(&self, e: &Event) -> Vec<u8> {
+        bincode::serialize(e).unwrap()
+    }
+    fn enc_val(&self, v: i64) -> Vec<u8> {
+        bincode::serialize(&v).unwrap()
+    }
+    fn dec_reqs(&self, b: &[u8]) -> Vec<FfiReq> {
+        bincode::deserialize(b).unwrap()
+    }
+    fn dec_view(&self, b: &[u8]) -> Vec<Event> {
+        bincode::deserialize(b).unwrap()
+    }
+}
+
+struct Json(BridgeWithSerializer<DslApp>);
+impl Wire for Json {
+    fn event(&self, bytes: &[u8]) -> Result<Vec<u8>, BridgeError> {
+        let mut out = vec![];
+        let mut de = serde_json::Deserializer::from_slice(bytes);
+        let mut ser = serde_json::Serializer::new(&mut out);
+        self.0.process_event(&mut de, &mut ser)?;
+        Ok(out)
+    }
+    fn response(&self, id: u32, bytes: &[u8]) -> Result<Vec<u8>, BridgeError> {
+        let mut out = vec![];
+        let mut de = serde_json::Deserializer::from_slice(bytes);
+        let mut ser = serde_json::Serializer::new(&mut out);
+        self.0.handle_response(id, &mut de, &mut ser)?;
+        Ok(out)
+    }
+    fn view(&self) -> Vec<u8> {
+        let mut out = vec![];
+        self.0.view(&mut serde_json::Serializer::new(&mut out)).unwrap();
+        out
+    }
+    fn registry(&self) -> Vec<(u32, &'static str)> {
+        self.0.verif_registry()
+    }
+    fn stats(&self) -> (usize, usize, usize, usize, usize) {
+        self.0.verif_stats()
+    }
+    fn enc_event(&self, e: &Event) -> Vec<u8> {
+        serde_json::to_vec(e).unwrap()
+    }
+    fn enc_val(&self, v: i64) -> Vec<u8> {
+        serde_json::to_vec(&v).unwrap()
+    }
+    fn dec_reqs(&self, b: &[u8]) -> Vec<FfiReq> {
+        serde_json::from_slice(b).unwrap()
+    }
+    fn dec_view(&self, b: &[u8]) -> Vec<Event> {
+        serde_json::from_slice(b).unwrap()
+    }
+}
+
+fn bridge_err(e: &BridgeError) -> &'static str {
+    match e {
+        BridgeError::DeserializeEvent(_) => "err:deser-event",
+        BridgeError::DeserializeOutput(_) => "err:deser-output",
+        BridgeError::ProcessResponse(crux_core::ResolveError::Never) => "err:never",
+        BridgeError::ProcessResponse(crux_core::ResolveError::FinishedMany) => "err:finished",
+        BridgeError::SerializeRequests(_) => "err:ser-requests",
+        BridgeError::SerializeView(_) => "err:ser-view",
+    }
+}
+
+fn run_bridge(w: &dyn Wire, prog: Prog, acts: &[Action]) -> String {
+    PROGRAM.with(|p| *p.borrow_mut() = prog);
+    ABORTS.with(|a| a.borrow_mut().clear());
+    REENTRANT.with(|r| *r.borrow_mut() = false);
+    IN_UPDATE.with(|r| *r.borrow_mut() = false);
+    // K (emission index) ↦ id, and id ↦ latest K issued under it
+    let mut ids: Vec<u32> = vec![];
+    let mut latest: std::collections::HashMap<u32, usize> = Default::default();
+    let mut steps: Vec<String> = vec![];
+    let kind_of = |reg: &[(u32, &'static str)], id: u32| -> &'static str {
+        match reg.iter().find(|(i, _)| *i == id).map(|(_, k)| *k) {
+            Some("never") => "n",
+            Some("once") => "o",
+            Some("many") => "m",
+            _ => "?",
+        }
+    };
+    let mut show = |reqs: &[FfiReq], ids: &mut Vec<u32>, latest: &mut std::collections::HashMap<u32, usize>| -> String {
+        let reg = w.registry();
+        let mut out = vec![];
+        for r in reqs {
+            let EffectFfi::Cap(op) = &r.effect;
+            out.push(format!("{}:{}:{}:{}", r.id.0, op.n, op.v, kind_of(&reg, r.id.0)));
+            latest.insert(r.id.0, ids.len());
+            ids.push(r.id.0);
+        }
+        format!("E[{}]", out.join(","))
+    };
+    let mut after_call = |res: &str, reqs: Vec<FfiReq>, ids: &mut Vec<u32>, latest: &mut std::collections::HashMap<u32, usize>| -> String {
+        let e = show(&reqs, ids, latest);
+        let p = match w.event(&w.enc_event(&Event { tag: PROBE_TAG, v: 0 })) {
+            Ok(b) => show(&w.dec_reqs(&b), ids, latest),
+            Err(e) => bridge_err(&e).to_string(),
+        };
+        let (tasks, ready, spawn, requests, events) = w.stats();
+        let reg: Vec<String> = w.registry().iter().map(|(i, k)| format!("{}:{}", i, &k[..1])).collect();
+        format!(
+            "{res} {e} P{p} l{} s{tasks} q{ready}.{spawn}.{requests}.{events} R[{}]",
+            w.dec_view(&w.view()).len(),
+            reg.join(",")
+        )
+    };
+    for a in acts {
+        let s = match a {
+            Action::Ev(tag, v) => match w.event(&w.enc_event(&Event { tag: *tag, v: *v })) {
+                Ok(b) => after_call("ok", w.dec_reqs(&b), &mut ids, &mut latest),
+                Err(e) => after_call(bridge_err(&e), vec![], &mut ids, &mut latest),
+            },
+            Action::RawEv(bytes) => match w.event(bytes) {
+                Ok(b) => after_call("ok", w.dec_reqs(&b), &mut ids, &mut latest),
+                Err(e) => after_call(bridge_err(&e), vec![], &mut ids, &mut latest),
+            },
+            Action::Res(k, _) | Action::RawRes(k, _) => {
+                let bytes = match a {
+                    Action::Res(_, v) => w.enc_val(*v),
+                    Action::RawRes(_, b) => b.clone(),
+                    _ => unreachable!(),
+                };
+                match ids.get(*k).copied() {
+                    None => after_call("noreq", vec![], &mut ids, &mut latest),
+                    Some(id) => {
+                        let live = latest.get(&id) == Some(k) && w.registry().iter().any(|(i, _)| *i == id);
+                        if !live {
+                            after_call("stale", vec![], &mut ids, &mut latest)
+                        } else {
+                            match w.response(id, &bytes) {
+                                Ok(b) => after_call("ok", w.dec_reqs(&b), &mut ids, &mut latest),
+                                Err(e) => after_call(bridge_err(&e), vec![], &mut ids, &mut latest),
+                            }
+                        }
+                    }
+                }
+            }
+            Action::Drop(_) => "~".into(),
+            Action::Abort(n) => {
+                ABORTS.with(|a| {
+                    if let Some((_, h)) = a.borrow().iter().find(|(m, _)| m == n) {
+                        h();
+                    }
+                });
+                "~".into()
+            }
+            Action::Poll => return "bad-case".into(),
+        };
+        steps.push(s);
+    }
+    let log = show_evs(&w.dec_view(&w.view()));
     let re = if REENTRANT.with(|r| *r.borrow()) { " REENTRANT" } else { "" };
     format!("{} || LOG {}{}", steps.join(" | "), log, re)
 }
@@ -224,15 +452,17 @@ fn run_case(line: &str) -> Option<String> {
             let acts: Vec<Action> = acts.as_list()?.iter().map(parse_action).collect::<Option<_>>()?;
             Some(run_direct(&c, &acts))
         }
+        ("bridge" | "jbridge", [prog, acts]) => {
+            let prog = parse_prog(prog)?;
+            let acts: Vec<Action> = acts.as_list()?.iter().map(parse_action).collect::<Option<_>>()?;
+            if host == "bridge" {
+                Some(run_bridge(&Bin(Bridge::new(Core::new())), prog, &acts))
+            } else {
+                Some(run_bridge(&Json(BridgeWithSerializer::new(Core::new())), prog, &acts))
+            }
+        }
         ("core", [prog, acts]) => {
-            let prog: Vec<(u32, Cmd)> = prog
-                .as_list()?
-                .iter()
-                .map(|e| {
-                    let xs = e.as_list()?;
-                    Some((xs.first()?.num()?, parse_cmd(xs.get(1)?)?))
-                })
-                .collect::<Option<_>>()?;
+            let prog = parse_prog(prog)?;
             let acts: Vec<Action> = acts.as_list()?.iter().map(parse_action).collect::<Option<_>>()?;
             Some(run_core(prog, &acts))
         }
@@ -393,12 +623,81 @@ impl Gen {
             }
         }
     }
+    fn legacy_tasks(&mut self) -> Vec<Sexp> {
+        let n = match self.r.below(4) {
+            0 => 1,
+            1 => 2,
+            _ => 0,
+        };
+        (0..n)
+            .map(|_| {
+                self.next_handle = 0;
+                let mut v = vec![atom("legacy")];
+                v.extend(self.instrs(5, 1).iter().map(Instr::sexp));
+                list(v)
+            })
+            .collect()
+    }
+    /// malformed / odd byte strings around a valid encoding
+    fn mangle(&mut self, valid: &[u8]) -> Vec<u8> {
+        let mut b = valid.to_vec();
+        match self.r.below(8) {
+            0 => b.truncate(self.r.below(b.len() as u64 + 1) as usize),
+            1 => b.extend((0..1 + self.r.below(4)).map(|_| self.r.next() as u8)),
+            2 if !b.is_empty() => {
+                let i = self.r.below(b.len() as u64) as usize;
+                b[i] ^= 1 << self.r.below(8);
+            }
+            3 => b = (0..self.r.below(16)).map(|_| self.r.next() as u8).collect(),
+            4 => b.clear(),
+            5 if !b.is_empty() => {
+                let i = self.r.below(b.len() as u64) as usize;
+                b[i] = *self.r.pick(&[0u8, 0xff, 0x80, b'"', b'{', b'-', b' ']);
+            }
+            6 => b = b"null".to_vec(),
+            _ => {}
+        }
+        b
+    }
+    fn raw_actions(&mut self, json: bool, k: u64, tags: &[u32]) -> Sexp {
+        use serde::Deserialize;
+        if self.r.chance(2, 3) {
+            let v = 100 + self.r.below(50) as i64;
+            let valid = if json { serde_json::to_vec(&v).unwrap() } else { bincode::serialize(&v).unwrap() };
+            let bytes = self.mangle(&valid);
+            let dec = if json {
+                let mut de = serde_json::Deserializer::from_slice(&bytes);
+                match i64::deserialize(&mut de) {
+                    Ok(v) => v.to_string(),
+                    Err(_) => "err".into(),
+                }
+            } else {
+                "?".into()
+            };
+            list(vec![atom("rawres"), atom(k), atom(to_hex(&bytes)), atom(dec)])
+        } else {
+            let e = Event { tag: *self.r.pick(tags), v: self.r.below(5) as i64 };
+            let valid = if json { serde_json::to_vec(&e).unwrap() } else { bincode::serialize(&e).unwrap() };
+            let bytes = self.mangle(&valid);
+            let dec = if json {
+                let mut de = serde_json::Deserializer::from_slice(&bytes);
+                match Event::deserialize(&mut de) {
+                    Ok(e) => format!("{}:{}", e.tag, e.v),
+                    Err(_) => "err".into(),
+                }
+            } else {
+                "?".into()
+            };
+            list(vec![atom("rawev"), atom(to_hex(&bytes)), atom(dec)])
+        }
+    }
     fn history(&mut self, len: u64, core: bool, tags: &[u32]) -> Vec<Sexp> {
         let mut out = vec![];
         let mut payload = 100i64;
         let n = self.r.below(len + 1);
         for i in 0..n {
-            let k = self.r.below(7);
+            let kmax = 1 + self.r.below(7);
+            let k = self.r.below(kmax);
             payload += 1;
             let a = match self.r.below(if core { 14 } else { 12 }) {
                 0..=6 => list(vec![atom("res"), atom(k), atom(payload)]),
@@ -428,7 +727,7 @@ fn gen(seed: u64, n: usize, profile: &str) {
         g.next_abort = 0;
         g.next_handle = 0;
         let p = match profile {
-            "mix" => ["comb", "task", "core", "cancel"][i % 4],
+            "mix" => ["comb", "task", "core", "cancel", "bridge", "malformed"][i % 6],
             p => p,
         };
         let line = match p {
@@ -453,6 +752,30 @@ fn gen(seed: u64, n: usize, profile: &str) {
                 let h = g.history(10, false, &[]);
                 list(vec![atom("direct"), c.sexp(), list(h)])
             }
+            "bridge" | "malformed" => {
+                g.allow_abortable = g.r.chance(1, 4);
+                let mut prog = vec![];
+                for t in 1..=3u32 {
+                    g.emit_tags = (t + 1..=3).chain([10, 11]).collect();
+                    if t == 1 || g.r.chance(2, 3) {
+                        let c = g.cmd(3, 5, 4);
+                        let mut entry = vec![atom(t), c.sexp()];
+                        entry.extend(g.legacy_tasks());
+                        prog.push(list(entry));
+                    }
+                }
+                let json = g.r.chance(1, 2);
+                let mut h = g.history(9, true, &[1, 2, 3, 7]);
+                // bridges cannot drop requests; splice raw (possibly malformed) inputs in
+                let nraw = if p == "malformed" { 1 + g.r.below(3) } else { g.r.below(2) };
+                for _ in 0..nraw {
+                    let pos = 1 + g.r.below(h.len() as u64) as usize;
+                    let k = g.r.below(6);
+                    let a = g.raw_actions(json, k, &[1, 2, 3]);
+                    h.insert(pos.min(h.len()), a);
+                }
+                list(vec![atom(if json { "jbridge" } else { "bridge" }), list(prog), list(h)])
+            }
             _ => {
                 // core: commands for tags 1..3; a command for tag t may emit only tags > t or inert tags
                 g.allow_abortable = g.r.chance(1, 3);
@@ -461,7 +784,9 @@ fn gen(seed: u64, n: usize, profile: &str) {
                     g.emit_tags = (t + 1..=3).chain([10, 11]).collect();
                     if t == 1 || g.r.chance(2, 3) {
                         let c = g.cmd(3, 5, 4);
-                        prog.push(list(vec![atom(t), c.sexp()]));
+                        let mut entry = vec![atom(t), c.sexp()];
+                        entry.extend(g.legacy_tasks());
+                        prog.push(list(entry));
                     }
                 }
                 let h = g.history(8, true, &[1, 2, 3, 7]);
